@@ -220,6 +220,9 @@ func c06Exprs(sh c06shape, thorough bool) []c06expr {
 						tb{"key==k0", &Match{Sel: []string{I}, Op: OpEq, Lit: "k0"}},
 						tb{"index-with-subpath", &Match{Sel: []string{I, "f"}, Op: OpEq, Lit: "1"}},
 						tb{"unused", &Match{Sel: []string{"t"}, Op: OpEq, Lit: "1"}},
+						// the datum's member with the EMPTY name: placeholders that are not given (`_`, or absent in the one-name form) bind nothing,
+						// in particular not the empty name
+						tb{"empty-name-is-not-bound", &Match{Sel: []string{""}, Op: OpEq, Lit: "1"}},
 						tb{"value-or-index", &Bin{Or: true, L: vb, R: &Match{Sel: []string{I}, Op: OpEq, Lit: "1"}}},
 						tb{"not-value", &Not{X: vb}},
 					)
@@ -319,12 +322,12 @@ func runC06(c *eng.Ctx) {
 			for i := len(cur) - 1; i >= 1; i-- {
 				n = NMap(TStr, TAny, str(cur[i]), n)
 			}
-			return NMap(TStr, TAny, str(cur[0]), n, str("t"), one)
+			return NMap(TStr, TAny, str(cur[0]), n, str("t"), one, str(""), one)
 		}
 		if variant == 1 {
 			return NPtr(NStruct(F{Name: "S", V: coll}, F{Name: "T", Tag: `bexpr:"t"`, V: one}, F{Name: "x", Unexp: true, V: one}))
 		}
-		return NMap(TStr, TAny, str("S"), coll, str("t"), one)
+		return NMap(TStr, TAny, str("S"), coll, str("t"), one, str(""), one)
 	}
 	type cached struct {
 		ev  *bexpr.Evaluator
